@@ -299,6 +299,8 @@ def diff_outcome(st, o, ar, obs, probes, per_row, hist, probe_rows):
         p = probes.get(pr["name"])
         if probe_rows.get(pr["name"]) != list(pr["row"]):
             continue            # the probe that was executed was computed for another outcome
+        if pr["name"] == "fresh" and isinstance(scan, list) and any(r[0] == pr["row"][0] for r in scan):
+            continue            # the table holds rows the model does not: "fresh" is not fresh, the scan divergence says so
         if p is None or p == "panic":
             d.append({"kind": "probe", "name": pr["name"], "expected_ok": pr["ok"], "observed": "panic" if p == "panic" else "not executed"})
         elif p[0] != pr["ok"]:
